@@ -274,7 +274,10 @@ class Rig:
                     elif k == 'tmcp':
                         client.objects[('sb', 'sk')] = data
                         self.size_holder['size'] = size if mode[1] else None
-                        fut = m.copy(self.copy_source, 'b', 'k', extra_args=extra, subscribers=self.subscribers)
+                        # (a caller-supplied source client -- here the same client object -- must not
+                        #  change what is validated or sent)
+                        kw_sc = {'source_client': client} if variant == 1 else {}
+                        fut = m.copy(self.copy_source, 'b', 'k', extra_args=extra, subscribers=self.subscribers, **kw_sc)
                     else:
                         client.objects[('b', 'k')] = data
                         fut = m.delete('b', 'k', extra_args=extra, subscribers=self.subscribers)
@@ -698,6 +701,49 @@ def case_json(mode, d, size):
 
 # ------------------------------------------------------------------ run / replay
 
+def abort_path(ctx, env):
+    """The clean-up request of a FAILED multipart upload / copy: with every allowed argument (alone
+    and all together) the first part request is made to fail; the AbortMultipartUpload that follows
+    must carry only parameters the operation has (the fake S3 refuses anything else client-side, as
+    botocore does) -- otherwise the abort never reaches the service and the upload stays open."""
+    from harness.fakes3 import FakeFault, input_members
+    members = input_members('AbortMultipartUpload')
+    for mode in [m for m in all_modes() if m[0] in ('tmup', 'tmcp') and is_multi(m)]:
+        al = allowed_of(mode)
+        sets = [{}] + [{a: uval(3 + j)} for j, a in enumerate(al)] + [{a: uval(40 + j) for j, a in enumerate(al)}]
+        if not ctx.thorough():
+            sets = sets[:1] + sets[1:-1][::2] + sets[-1:]
+        for d in sets:
+            rig = Rig(env, mode)
+            try:
+                rig.client.fault = lambda rec, when: (FakeFault('part') if when == 'before' and rec['op'] in
+                                                      ('UploadPart', 'UploadPartCopy') else None)
+                n0 = len(rig.client.log)
+                r = rig.step(mode, dict(d), 6)
+                calls = rig.client.log[n0:]
+                rej = [x for x in rig.client.rejected_params]
+                aborts = [c for c in calls if c['op'] == 'AbortMultipartUpload']
+                created = [c for c in calls if c['op'] == 'CreateMultipartUpload' and c.get('outcome') == 'ok']
+                ctx.count('route-abort-path', 1, nontrivial_key=(mode, tuple(sorted(d))), method=mode[0], names=len(d))
+                why = None
+                if rej:
+                    why = (f'{rej[0][0]} was called with parameter(s) {rej[0][1]} it does not have: the call is refused before it is '
+                           f'sent' + (' and the multipart upload is left open' if rej[0][0] == 'AbortMultipartUpload' else ''))
+                elif created and not aborts:
+                    why = f'the multipart upload was created and a part failed, but no AbortMultipartUpload was issued (result {show(r)[:80]})'
+                else:
+                    for c in aborts:
+                        extra_ = sorted(set(c['kwargs']) - members)
+                        if extra_:
+                            why = f'AbortMultipartUpload carried {extra_}, not members of its input shape'
+                if why:
+                    ctx.report(f'abort-path:{mode[0]}:{",".join(sorted(d))[:60]}',
+                               f'{mode[0]} multipart with extra_args {sorted(d)} and a failing part: {why}',
+                               {'kind': 'input', 'component': 'route-abort-path', 'case': {'mode': list(mode), 'extra_args': d}})
+            finally:
+                rig.close()
+
+
 def run(ctx):
     ok = common.proofs(ctx, 'C15', EXTRACT, COMPONENTS)
     ctx.trusted = list(ctx.trusted) + [
@@ -732,6 +778,7 @@ def run(ctx):
             rs, fails = check_sequence(ctx, env, steps)
             seq_results.append(rs)
             seq_fails.append(fails)
+        abort_path(ctx, env)
     # search oracle on everything (cheap; needs no model)
     extra = {'broken': ctx.broken.what} if ctx.broken is not None else {}
     flagged, flagged_seq = set(), set()
@@ -825,6 +872,11 @@ def count_only(ctx, cases, results):
 
 def replay(ctx, data):
     case = data.get('case') or {}
+    if data.get('component') == 'route-abort-path':
+        n0 = len(ctx.violations)
+        with Env() as env:
+            abort_path(ctx, env)
+        return len(ctx.violations) > n0
     if isinstance(case, dict) and 'sequence' in case:
         steps = [(tuple(st['mode']), dict(st['dict']), int(st['size']), st.get('extra_args_object', 'same'))
                  for st in case['sequence']]
